@@ -201,6 +201,10 @@ class TemplateTyper:
         elif isinstance(n, nodes.For):
             it = self._expr(n.iter, env, t, macro, "use")
             et = elem_type(it) if it is not None else None
+            for m in members(it):
+                if m is not None and m[0] == "tuple":  # `for x in (a, b)`
+                    for x in m[1]:
+                        et = join(et, x)
             env2 = dict(env)
             env2["loop"] = ("prim", "loop")
             self._bind(n.target, et, env2)
@@ -237,7 +241,12 @@ class TemplateTyper:
             parts: List[T] = []
             for m in members(v):
                 if m is not None and m[0] == "tuple":
-                    parts = m[1]
+                    # several tuple shapes (a list of literal tuples): join position-wise
+                    for i, x in enumerate(m[1]):
+                        if i < len(parts):
+                            parts[i] = join(parts[i], x)
+                        else:
+                            parts.append(x)
             for i, e in enumerate(target.items):
                 self._bind(e, parts[i] if i < len(parts) else None, env)
 
@@ -455,7 +464,9 @@ class TemplateTyper:
             return a if a is not None else b
         if isinstance(e, nodes.UnaryExpr):
             return self._expr(e.node, env, t, macro, ctx)
-        if isinstance(e, (nodes.List, nodes.Tuple)):
+        if isinstance(e, nodes.Tuple):
+            return ("tuple", [self._expr(x, env, t, macro, ctx) for x in e.items])
+        if isinstance(e, nodes.List):
             et: T = None
             for x in e.items:
                 et = join(et, self._expr(x, env, t, macro, ctx))
